@@ -85,7 +85,7 @@ FLOAT_KEYS = {'float', 'double', 'long double'}
 APPEND = {'push_back', 'emplace_back'}
 INSERT = {'insert', 'emplace'}
 ORDER_OK = {'clear', 'reserve', 'shrink_to_fit', 'pop_back', 'erase'}
-ALGO_READ = {'std::find_if', 'std::find', 'std::find_if_not', 'std::distance', 'std::any_of', 'std::all_of', 'std::none_of',
+ALGO_READ = {'std::any_of', 'std::find_if', 'std::find', 'std::find_if_not', 'std::distance', 'std::any_of', 'std::all_of', 'std::none_of',
              'std::count', 'std::count_if', 'std::for_each', 'std::next', 'std::prev', 'std::advance', 'std::begin', 'std::end',
              'std::lower_bound', 'std::upper_bound', 'std::binary_search', 'std::equal', 'std::accumulate', 'std::move',
              'std::forward', 'std::make_pair', 'std::addressof'}
@@ -160,7 +160,7 @@ VOCAB_HEADS = {'field', 'deref', 'addr', 'param', 'lparam', 'this', 'const', 'nu
                'str', 'call', 'construct', 'none'}
 VOCAB_CALLS = {'std::vector::begin', 'std::vector::end', 'std::vector::rbegin', 'std::vector::rend', 'std::vector::back',
                'std::vector::front', 'std::vector::at', 'std::vector::size', 'std::vector::empty', 'std::vector::capacity',
-               'std::find_if', 'std::__shared_ptr::get', 'std::shared_ptr::get', PO + '::findParam', 'std::make_pair',
+               'std::find_if', 'std::any_of', 'std::__shared_ptr::get', 'std::shared_ptr::get', PO + '::findParam', 'std::make_pair',
                'std::make_shared'}
 
 
@@ -359,6 +359,20 @@ def report_mismatch(mm, probs, und):
     if mm is None:
         return
     (probs if mm[0] == 'viol' else und).append((mm[1], mm[2]))
+
+
+def appended_elem(seq, x):
+    """arguments describing the element when the sequence event appends at the end (push_back / emplace_back, or insert / emplace at
+    end()), else None"""
+    kind, name, ev = x
+    if kind != 'member':
+        return None
+    vals = [unver(a) for a in (ev.value or ())]
+    if name in APPEND:
+        return vals
+    if name in INSERT and vals and vals[0] == vend(seq.S):
+        return vals[1:]
+    return None
 
 
 def check_sequence_rules(ctx, tu, se, seq, fns, file_of, tag, counts):
@@ -713,18 +727,22 @@ def check_flatmap(ctx, tu, tag=''):
                     else:
                         evs = [x for x in seq.seq_events(p, bool(f.get('const'))) if not (x[0] == 'algo' and x[1] in ALGO_READ)
                                and not is_elem_field_store(seq, x)]     # member updates of an element are judged by R-C10-1 / R-C10-2
-                        apps = [x for x in evs if x[0] == 'member' and x[1] in APPEND]
+                        apps = [x for x in evs if appended_elem(seq, x) is not None]
                         if f.get('const'):
                             if p.term[0] != 'throw':
                                 und.append(('const-index', 'const operator[] on a missing key neither throws nor can insert'))
                             continue
                         if len(apps) != 1 or len(evs) != 1:
-                            probs.append(('no-single-append', 'the failed-lookup path performs %d sequence operation(s), expected exactly one append' % len(evs)))
+                            if len(apps) > 1 or not evs:
+                                probs.append(('no-single-append', 'the failed-lookup path appends %d elements, expected exactly one' % len(apps)))
+                            else:
+                                und.append(('no-single-append', 'the failed-lookup path performs sequence operation(s) %s; not recognised as one append'
+                                            % ', '.join('`%s`' % tu.show(x[2].node) for x in evs)))
                             continue
-                        arg = unver(apps[0][2].value[0]) if apps[0][2].value else None
-                        val = seq.elem_key(arg, ('field', ('lparam', 0), 'second')) if apps[0][1] == 'push_back' else \
-                            (unver(apps[0][2].value[1]) if len(apps[0][2].value) == 2 else
-                             ('construct', 'VALUE') if len(apps[0][2].value) == 0 else None)
+                        ael = appended_elem(seq, apps[0])
+                        arg = ael[0] if ael else None
+                        val = seq.elem_key(arg, ('field', ('lparam', 0), 'second')) if apps[0][1] in ('push_back', 'insert') else \
+                            (ael[1] if len(ael) == 2 else ('construct', 'VALUE') if len(ael) == 0 else None)
                         if val is None:
                             und.append(('inserted-value', 'cannot see the value inserted for a missing key'))
                         elif not (val == ('const', 0) or (val[0] == 'construct' and len(val) == 2) or val == ('str', '""')):
@@ -1026,16 +1044,23 @@ def check_paramobj(ctx, tu, tag=''):
                     (und if rvu is None or has_unknown(rvu) else probs).append(
                         ('missing-not-null', 'findParam(name, false) returns `%s` for a missing name instead of nullptr' % (show(rvu) if rvu else p.term[0])))
             else:
-                apps = [x for x in evs if x[0] == 'member' and x[1] in APPEND]
+                apps = [x for x in evs if appended_elem(seq, x) is not None]
                 if len(apps) != 1 or len(evs) != 1:
                     if not evs and rvu == ('null',):
                         probs.append(('no-insert-when-asked', 'findParam(name, true) returns nullptr for a missing name: setParam dereferences it'))
+                    elif len(apps) > 1:
+                        probs.append(('no-single-append', 'findParam(name, true) appends %d parameters for one missing name' % len(apps)))
                     else:
-                        probs.append(('no-single-append', 'findParam(name, true) performs %d list operation(s) for a missing name, expected one append' % len(evs)))
+                        und.append(('no-single-append', 'findParam(name, true) performs list operation(s) %s for a missing name; not recognised as one append'
+                                    % ', '.join('`%s`' % tu.show(x[2].node) for x in evs)))
                     continue
-                elem = unver(apps[0][2].value[0]) if apps[0][2].value else None
+                ael = appended_elem(seq, apps[0])
+                elem = ael[0] if ael else None
                 back = ('call', 'std::vector::back', S)
-                if rvu in (('call', 'std::__shared_ptr::get', back), ('addr', ('deref', back))):
+                ins = unver(apps[0][2].nf) if apps[0][1] in INSERT and apps[0][2].nf is not None else None   # insert() returns the new position
+                if ins is not None and rvu in (('call', 'std::__shared_ptr::get', ('deref', ins)), ('addr', ('deref', ('deref', ins)))):
+                    pass
+                elif rvu in (('call', 'std::__shared_ptr::get', back), ('addr', ('deref', back))):
                     sv = versions_in(rv).get(S, set())
                     if any(v != se.version_in(p.ver, S) for v in sv):
                         probs.append(('added-wrong-result', 'the returned element is read before the new parameter is appended'))
@@ -1098,6 +1123,9 @@ def check_paramobj(ctx, tu, tag=''):
                 rv = unver(p.term[1]) if p.term[0] == 'return' and p.term[1] is not None else None
                 if rv == mk_not(mk_eq(('null',), finder_call(0))):
                     pass
+                elif rv == ('call', 'std::any_of', None, vbegin(S), vend(S), ('pred', mk_eq(keyexpr0, p0))) \
+                        and not [x for x in seq.seq_events(p, False) if not (x[0] == 'algo' and x[1] in ALGO_READ)]:
+                    pass      # a presence test with the lookup's own predicate; the list is not touched
                 elif rv == mk_not(mk_eq(('null',), finder_call(1))):
                     probs.append(('read-inserts', 'hasParam calls findParam(name, true): asking for a parameter creates it'))
                 elif rv == mk_eq(('null',), finder_call(0)):
